@@ -199,8 +199,10 @@ class Report:
             cov.update(coverage_extra)
         ev = dict(property_id=self.prop, tier=tier(), seed=seed(), level=self.level, coverage=cov,
                   assumptions=self.assumptions, wall_s=round(wall, 2), violations=len(self.violations))
-        os.makedirs(os.path.join(VERIF, 'evidence'), exist_ok=True)
-        json.dump(ev, open(os.path.join(VERIF, 'evidence', self.prop + '.json'), 'w'), indent=1, default=str)
+        # runs against another tree (ORC_REPO: seeded changes in a scratch worktree) must not overwrite the evidence of /repo
+        evdir = os.environ.get('VERIF_EVIDENCE_DIR') or (os.path.join(VERIF, 'evidence') if not os.environ.get('ORC_REPO') else os.path.join('/tmp', 'orcverif-evidence-other-tree'))
+        os.makedirs(evdir, exist_ok=True)
+        json.dump(ev, open(os.path.join(evdir, self.prop + '.json'), 'w'), indent=1, default=str)
         print('SUMMARY property=%s tier=%s jobs=%d held=%d known=%d violated=%d inconclusive=%d mismatch=%d wall=%.1fs' % (
             self.prop, tier(), n, sum(j['verdict'] == 'held' for j in self.jobs), len(self.known_hit),
             len(self.violations), len(self.inconclusive), len(self.encoder_mismatch), wall), flush=True)
